@@ -15,6 +15,15 @@ def run_spec(ctx, rep, spec, model, only=None):
     path = ctx.newdir("c03_")
     plotgen.materialize(spec, path)
     tree = tastelib.snapshot(path)
+    if spec.get("level_symlink"):
+        # the directory of the finest level lives elsewhere and is reached through a symbolic link (data kept on another
+        # file system); the snapshot above was taken before, the bytes are the same
+        import os, shutil
+        lv = len(spec["levels"]) - 1
+        real = ctx.newdir("c03lvl_")
+        shutil.move(os.path.join(path, f"Level_{lv}"), real)
+        os.symlink(real, os.path.join(path, f"Level_{lv}"))
+        rep.count("level-directory-is-a-symbolic-link")
     if spec.get("path_form") == "symlink":
         path = ctx.via_symlink(path); rep.count("path-through-symlink-and-dotdot")
     feats = plotgen.describe(spec)
@@ -236,6 +245,10 @@ def run(ctx, rep, model=True):
                                    layout=["scatter", "files", "perm", "scatter", "files", "mono", "scatter"][i % 7], exact=(i % 3 != 2),
                                    scale=[None, None, "centred", None, "far", "centred", "tiny"][i % 7])
         if i % 5 == 3: spec["path_form"] = "symlink"
+        if i % 5 == 1: spec["level_symlink"] = True
+        if i % 4 == 1 and len(spec["fields"]) == 3:
+            # a repeated name next to the name its repetition would be given (avg, avg_2, avg -> avg, avg_2, avg_3)
+            spec["fields"] = ["avg", "avg_2", "avg"]; rep.count("repeated-name-beside-its-numbered-form")
         run_spec(ctx, rep, spec, model)
         if len(rep.violations) >= 10:
             return
